@@ -389,7 +389,12 @@ def finish(prop, tier, seed, t0, lean, streams_stats, samples, violations, known
         print("KNOWN-FINDING: property=%s %s" % (prop, kh))
     if violations:
         os.makedirs(REPLAYS, exist_ok=True)
-        for k, v in enumerate(violations[:5]):
+        shown = violations[:5]
+        for v in violations[5:]:   # a broken proof obligation is always reported, whatever else was found
+            if v.get("kind") == "proof-obligation-broken":
+                shown = shown[:4] + [v]
+                break
+        for k, v in enumerate(shown):
             path = os.path.join(REPLAYS, "%s-%s-%d.json" % (prop, seed, k))
             with open(path, "w") as f:
                 json.dump(v, f, indent=1, sort_keys=True)
